@@ -141,6 +141,7 @@ func scenario(v variant) sched.Scenario {
 		}
 		l := storeh.NewLedger()
 		res := make([]string, len(v.writers))
+		vsched.Focus()
 		for i, p := range v.writers {
 			i, p := i, p
 			vsched.Spawn(func() { res[i] = commitProgram(st, l, i, p) })
